@@ -127,7 +127,8 @@ def cases(tier, seed):
         # quick thins the *inputs*; every spelling of every description goes
         # through every entry point on the inputs that remain
         ins = ins[::4]
-    for (ik, ispec), (dname, d) in itertools.product(ins, DESCS.items()):
+    for ii, ((ik, ispec), (dname, d)) in enumerate(
+            itertools.product(ins, DESCS.items())):
         spell = list(itertools.product(range(len(d["vn"])), range(len(d["vd"]))))
         for si, (vni, vdi) in enumerate(spell):
             j += 1
@@ -138,8 +139,10 @@ def cases(tier, seed):
                        "vd": vdi, "entry": entry,
                        # the same Runner was used before, with a constant
                        # overridden for that run only
-                       "prev_override": (dname == "attrs" and entry in (
-                           "runner", "label", "runner_df") and j % 2 == 0),
+                       "prev_override": (dname in ("attrs", "falsy")
+                                         and entry in ("runner", "label",
+                                                       "runner_df")
+                                         and (ii // len(DESCS) + ei) % 2 == 0),
                        "dictcases": j % 3 == 1,
                        "strat": strats[(j + ei) % 4],
                        "types": "ifs"[j % 3] + "sfi"[(j // 2) % 3]
